@@ -7,6 +7,7 @@ import (
 	"strings"
 
 	lisp "github.com/jig/lisp"
+	envpkg "github.com/jig/lisp/env"
 	"github.com/jig/lisp/types"
 
 	"verifharness/internal/enum"
@@ -420,11 +421,53 @@ func init() {
 				}
 			},
 		}
+		// values made by evaluating ONE literal of the program text several times (a function body, a macro
+		// template): whatever the literal's source position is, it is the same for all of them
+		oneLitVals := []string{"nil", "false", "true", "0", "1", `"a"`, ":a", "(quote a)", "()", "[]", "{}", "[1]", "(quote (1))", "{:a 1}", "[nil]", "#{}"}
+		oneLitTemplates := []string{"[x 1]", "[x]", "[[x] 2]", "{:k x}", "{:k [x]}", "(list x)", "`(~x 1)", "`[~x]", "(let [y x] [y y])", "[(if x 1 2)]", "(quote [1 2])", "(with-meta [x] {:m x})"}
+		nv1, nt1 := int64(len(oneLitVals)), int64(len(oneLitTemplates))
+		oneLit := &vf.Family{
+			Name:   "values-made-by-one-literal",
+			Bounds: fmt.Sprintf("%d collection literals / templates containing a parameter (vector, nested vector, map, map of vector, list call, quasiquoted list and vector, let, if inside a vector, a quoted constant, with-meta) as the body of one function x all ordered pairs of %d argument values (atoms, empty and one-element collections): the two results of the same literal compared by = in both orders, the program read from text under a module name; also through map over a two-element vector", nt1, nv1),
+			Setup:  func(t string) { tier = t; env = lx.NewCoreEnv() },
+			N:      func(t string) int64 { return nt1 * nv1 * nv1 },
+			Describe: func(i int64) string {
+				return fmt.Sprintf("(def mk (fn [x] %s)) (= (mk %s) (mk %s))", oneLitTemplates[i/(nv1*nv1)], oneLitVals[(i/nv1)%nv1], oneLitVals[i%nv1])
+			},
+			Run: func(i int64, r *vf.Rec) {
+				tp, x, y := oneLitTemplates[i/(nv1*nv1)], oneLitVals[(i/nv1)%nv1], oneLitVals[i%nv1]
+				r.NT()
+				text := fmt.Sprintf("(do (def mk (fn [x]\n %s))\n (def both (map mk [%s %s]))\n [(mk %s) (mk %s)\n (= (mk %s) (mk %s)) (= (mk %s) (mk %s)) (= (first both) (first (rest both))) (= (mk %s) (first (rest both)))])", tp, x, y, x, y, x, y, y, x, x)
+				ast, rerr := lisp.READ(text, types.NewCursorFile("c14-one-literal"), nil)
+				if rerr != nil {
+					r.Violation("harness: comparison text does not read", text+": "+rerr.Error())
+					return
+				}
+				res, err, p := lx.Eval(context.Background(), ast, envpkg.NewSubordinateEnv(env))
+				r.Exec(1)
+				if p != nil || err != nil {
+					r.ViolationCase("= fails on values made by one literal", text, fmt.Sprint(err, p))
+					return
+				}
+				v, ok := res.(types.Vector)
+				if !ok || len(v.Val) != 6 {
+					r.Violation("harness: unexpected result shape", fmt.Sprint(res))
+					return
+				}
+				want := model.Equal(model.FromImpl(v.Val[0]), model.FromImpl(v.Val[1]))
+				for k, what := range []string{"(= (mk X) (mk Y))", "(= (mk Y) (mk X))", "(= (first both) (second both)) with both = (map mk [X Y])", "(= (mk X) (second both))"} {
+					if got, isb := v.Val[2+k].(bool); !isb || got != want {
+						r.ViolationCase("= disagrees with structural equality on two values made by the same literal", text, fmt.Sprintf("%s: expected %v got %v (values %s and %s)", what, want, v.Val[2+k], model.FromImpl(v.Val[0]).String(), model.FromImpl(v.Val[1]).String()))
+						return
+					}
+				}
+			},
+		}
 		return &vf.Check{
 			ID: "C14", Level: "model_checking",
 			Rule:        "every ordered pair of data values of the bounded space is compared by the real = (through EVAL, with b also rebuilt along a second construction path) and by the model's independent structural equality; reflexivity, symmetry and transitivity are additionally checked on the implementation's own answers; non-trivial = pair of same kind / both sequential / equal",
 			Assumptions: []string{"values above the weight bound; keys over {\"a\", :a, :b}"},
-			Families:    []*vf.Family{pairs, triples, derived, deep},
+			Families:    []*vf.Family{pairs, triples, derived, deep, oneLit},
 		}
 	})
 }
